@@ -984,20 +984,23 @@ def _create_socks_endpoint(reactor, control_protocol, socks_config=None):
         # the __*Port things...
         if socks_ports == ['DEFAULT']:
             default = yield control_protocol.get_conf_single('__SocksPort')
-            socks_ports = [default]
+            if default and default != 'DEFAULT':
+                socks_ports = [default]
+            else:
+                socks_ports = []
     else:
         # return from get_conf was an empty dict; we want a list
         socks_ports = []
 
     # everything in the SocksPort list can include "options" after the
-    # initial value. We don't care about those, but do need to strip
-    # them.
-    socks_ports = [port.split()[0] for port in socks_ports]
+    # initial value. We don't care about those to find or use a port,
+    # but must keep them if we have to re-list the lines (below).
+    bare_ports = [port.split()[0] for port in socks_ports]
 
     # could check platform? but why would you have unix ports on a
     # platform that doesn't?
-    unix_ports = set([p for p in socks_ports if p.startswith('unix:')])
-    tcp_ports = set(socks_ports) - unix_ports
+    unix_ports = set([p for p in bare_ports if p.startswith('unix:')])
+    tcp_ports = set(bare_ports) - unix_ports
 
     socks_endpoint = None
     for p in list(unix_ports) + list(tcp_ports):  # prefer unix-ports
